@@ -108,7 +108,14 @@ class FunctionInteractionsUtils(object):
         for fi0 in fi.parsed_body:
             if isinstance(fi0, FunctionInteractions):
                 res += cls.all_store_paths(fi0).items()
-        return OrderedDict(res)
+        # A path can be reached several times by the analysis (the callee of a keep is also
+        # analysed as a by-name reference, in another calling context). The signature that
+        # counts is the one of the first occurrence: the keep under which it is evaluated.
+        out: "OrderedDict[DDSPath, PyHash]" = OrderedDict()
+        for (p, sig) in res:
+            if p not in out:
+                out[p] = sig
+        return out
 
     @classmethod
     def all_indirect_deps(cls, fis: FunctionInteractions) -> Set[DDSPath]:
